@@ -19,6 +19,8 @@ TIME = 'emg3d/time.py'
 ELEC = 'emg3d/electrodes.py'
 PARSER = 'emg3d/cli/parser.py'
 RUN = 'emg3d/cli/run.py'
+MAIN = 'emg3d/cli/main.py'
+DOCS = 'docs/manual/cli.rst'
 
 VARIANTS = []
 
@@ -451,3 +453,36 @@ m('C17', 'io reader strips complex tag before array tag', IO,
 n('C17', 'Survey.to_dict key order', SURV,
   "            'noise_floor': self.data.noise_floor,\n            'relative_error': self.data.relative_error,\n",
   "            'relative_error': self.data.relative_error,\n            'noise_floor': self.data.noise_floor,\n")
+
+# ------------------------------------------------------------------- C18
+m('C18', 'run: cell_number no longer translated (defect F6 back)', RUN,
+  "            gopts['cell_numbers'] = gopts.pop('cell_number')",
+  "            pass", 'C18.Q2')
+m('C18', 'parser: key renamed in a list (documented key no longer parsed)', PARSER,
+  "        for key in ['tol', 'tol_gradient']:", "        for key in ['tol', 'tol_grad']:",
+  'C18.Q')
+m('C18', 'solver: MGParameters field renamed', SOLVER,
+  "    nu_post: int = 2", "    nu_post_smooth: int = 2", 'C18.Q2')
+m('C18', 'parser: config tested before the terminal value', PARSER,
+  "    if term['nproc'] is not None:\n        simulation[key] = term['nproc']\n    elif cfg.has_option('simulation', key):\n        simulation[key] = cfg.getint('simulation', key)",
+  "    if cfg.has_option('simulation', key):\n        simulation[key] = cfg.getint('simulation', key)\n    elif term['nproc'] is not None:\n        simulation[key] = term['nproc']",
+  'C18.Q4')
+m('C18', 'parser: remainder check of [solver_opts] removed', PARSER,
+  "        if all_solver:\n            raise TypeError(", "        if False:\n            raise TypeError(",
+  'C18.Q5')
+m('C18', 'parser: getint -> getfloat for int keys', PARSER,
+  "                solver[key] = cfg.getint('solver_opts', key)",
+  "                solver[key] = cfg.getfloat('solver_opts', key)", 'C18.Q6')
+m('C18', 'parser: data list split on semicolon', PARSER,
+  "data[key] = [v.strip() for v in value.split(',')]",
+  "data[key] = [v.strip() for v in value.split(';')]", 'C18.Q6')
+m('C18', 'main: new terminal option not consumed by the parser', MAIN,
+  "    group3 = parser.add_mutually_exclusive_group()",
+  "    parser.add_argument('--tol', type=float, default=None)\n    group3 = parser.add_mutually_exclusive_group()",
+  'C18.Q3')
+m('C18', 'Survey.select parameter renamed', SURV,
+  "    def select(self, sources=None, receivers=None, frequencies=None,\n               remove_empty=True):",
+  "    def select(self, sources=None, receivers=None, frequencies=None,\n               remove_nan=True):",
+  'C18.Q2')
+n('C18', 'parser: int key list reordered', PARSER,
+  "        for key in ['tol', 'tol_gradient']:", "        for key in ['tol_gradient', 'tol']:")
